@@ -192,6 +192,7 @@ func runC04(c *Ctx) {
 		"C04.1 every call chain that removes a sessions row passes through an invalidator: a function in which, on every successful path after the row delete, the keys held (kvs by session index) are rewritten with the holder cleared or deleted, the session_checks links and the session-bound prepared queries are deleted",
 		"C04.2 deleting a node row, deleting a check row and storing a critical check each look up the linked sessions on every successful local-peer path and hand them to the invalidator",
 		"C04.3 a lock is taken only below a successful session lookup and below the edges row-absent / unheld / held-by-the-same-session; it is released on request only below holder == requester",
+		"C04.6 every memdb index over a field holding a session ID is a UUID (case-folding) indexer, in agreement with the session lookup",
 		"C04.5 the invalidator collects every row its by-session lookups yield (keys, check links, prepared queries): no filter between the iteration and the release/delete loop",
 		"C04.4 TTL expiry destroys sessions through the replicated log: a SessionDestroy request handed to raftApply, no direct store write from the TTL code",
 	}
@@ -318,6 +319,40 @@ func runC04(c *Ctx) {
 		}
 	}
 	r.Floor("C04.5", 3)
+
+	// ---- C04.6 indexes over session IDs fold letter case like the session lookup itself
+	nIdx := 0
+	for _, f := range p.SrcFuncs(statePkg) {
+		for _, b := range f.Blocks {
+			for _, in := range b.Instrs {
+				st, ok := in.(*ssa.Store)
+				if !ok {
+					continue
+				}
+				fa, ok := st.Addr.(*ssa.FieldAddr)
+				if !ok || core.FieldObj(fa).Name() != "Field" {
+					continue
+				}
+				if v, ok := core.ConstString(st.Val); !ok || v != "Session" {
+					continue
+				}
+				nt := core.NamedOf(fa.X.Type())
+				if nt == nil {
+					continue
+				}
+				nIdx++
+				construct := core.FuncName(f) + "/index on Session"
+				if nt.Obj().Name() == "UUIDFieldIndex" {
+					r.Hold("C04.6", construct, p.Pos(st.Pos()), "UUID indexer (case-insensitive), like the session table's own lookup")
+				} else {
+					r.Violate("C04.6", construct, p.Pos(st.Pos()), "the index from session ID to what the session holds uses "+nt.Obj().Name()+", which is case-sensitive, while sessions are looked up case-insensitively and the holder is stored as the client spelled it: a key locked under another spelling of the ID is not found when the session ends and stays locked by a session that no longer exists")
+				}
+			}
+		}
+	}
+	if nIdx < 2 {
+		r.MissingInstance("C04.6", "<session indexes>", fmt.Sprintf("only %d indexes over a Session field found", nIdx))
+	}
 
 	// ---- C04.2 cascades
 	isInvalidatorCall := func(in ssa.Instruction) bool {
